@@ -9,9 +9,12 @@ import json
 import random
 
 import execcommon as xc
+import progcommon as pc
 import vlib
 
 PROP = "C11"
+# of the whole-program verdicts (Trace_Prog), C11 owns the loop bookkeeping and the next-RIP of non-transfer instructions
+PROG_OWNS = lambda c, cls, m: c.startswith("C11:") or (c == "rip" and cls == "data")
 KINDMAP = {"plain": "nop", "jmp": "jmp32", "call": "call32", "ret": "ret", "fault": "fault"}
 
 
@@ -123,6 +126,11 @@ def run(tier, seed, prop=PROP):
         sc2, refs = random_scenarios(rng, 120 if q else 2500)
         n2, s2 = xc.validate(sc2, wd, "rnd", rep, 8 if q else 14, refs=refs, owner=prop)
         kinds = {(i["t"], i.get("cc")) for s in sc2 for i in s["_prog"].insns}
+        if prop == PROP:
+            pst = pc.judge(rep, 300 if q else 6000, 12, seed + 900, wd, "pg", PROG_OWNS, jobs=8 if q else 14)
+            if not q:
+                pc.judge(rep, 1500, 30, seed + 901, wd, "pl", PROG_OWNS, jobs=14, stats=pst)
+            pc.cov(rep, pst)
         rep.cov.update({
             "states": res["distinct"], "transitions": res["states"], "traces_validated_against_impl": s1 + s2,
             "events_validated": n1 + n2, "model_programs_replayed": len(sc1), "evaluations": n1 + n2,
@@ -143,4 +151,11 @@ def run(tier, seed, prop=PROP):
 def replay(path, seed, prop=PROP):
     rep = vlib.Report(prop, "quick", seed, "model_checking")
     case = json.load(open(path))["case"]
+    if case.get("prog"):
+        wd = vlib.workdir(prop.lower() + "r")
+        try:
+            import c18
+            return pc.replay(rep, case, wd, PROG_OWNS if prop == PROP else c18.PROG_OWNS)
+        finally:
+            vlib.cleanup(wd)
     raise vlib.ToolError("replay needs the program table; re-run the check with the same VERIF_SEED instead: " + case["scenario"]["id"])
